@@ -7,17 +7,18 @@ Executable, core-only; built on the transaction decoder of `Model/Tx.lean`.
 * `keypair.DeserializePublicKey` followed (at serialization time) by `keypair.SerializePublicKey` is the abstract
   parameter `Keys.canon : Bytes → Option Bytes` (`none` = the blob is not a public key).
 * Hash functions are parameters (`Hashes`); the driver instantiates them with SHA-256.
-* `Variant.asShipped` mirrors the code as found: the loop bounds `int(n)` of the bookkeeper / signature lists are
-  negative for `n ≥ 2^63` (zero iterations), a bookkeeper blob is stored as the decoded key, hence re-encoded
-  canonically, and `CrossChainMsg.Deserialization` pre-allocates `make([][]byte, 0, sigLen)`.
-  `Variant.countFixed` mirrors the code after `fixes/C20-header-count-wrap.patch` (uint64 loop counters, no
-  pre-allocation from the wire count); alternative key encodings are still accepted (known finding).
-  `Variant.sound` additionally rejects a blob that is not its own canonical encoding.
+* `Variant.asShipped` mirrors the code: a bookkeeper blob is stored as the decoded key, hence re-encoded canonically
+  (known finding `noncanonical-bookkeeper-key-reencode`).  `Variant.sound` rejects a blob that is not its own
+  canonical encoding.
+* The list loops run `n` times for the announced count `n` (uint64 counters) and `CrossChainMsg.Deserialization` does
+  not pre-allocate from the wire count: this is the code after the repairs `fixes/C20-header-count-wrap.patch` and
+  `fixes/C20-crosschainmsg-count.patch` (before them a count `≥ 2^63` meant zero iterations, resp. a `makeslice`
+  panic; the witnesses are kept in `corpus/C20/findings.ops`).
 -/
 namespace OntVerif.Model.Block
 open OntVerif.Util OntVerif.Model.Codec OntVerif.Model.Tx
 
-inductive Variant | asShipped | countFixed | sound
+inductive Variant | asShipped | sound
   deriving Repr, DecidableEq
 
 structure Keys where
@@ -27,14 +28,6 @@ structure Hashes where
   txHash : Tx → Bytes               -- `Transaction.Hash()`
   node : Bytes → Bytes → Bytes      -- merkle inner node: sha256d(a ‖ b)
   hdr : Bytes → Bytes               -- header hash of the unsigned serialisation: sha256d
-
-def two63 : Nat := 9223372036854775808
-
-/-- `for i := 0; i < int(n); i++`: number of iterations -/
-def loopCount (V : Variant) (n : Nat) : Nat :=
-  match V with
-  | .asShipped => if n < two63 then n else 0
-  | _ => n
 
 structure HeaderU where
   version : Nat
@@ -78,16 +71,16 @@ def parseKey (V : Variant) (K : Keys) : P (Bytes × Bytes) := do
   | none => fail .invalid
   | some c =>
     match V with
+    | .asShipped => pure (buf, c)
     | .sound => if c = buf then pure (buf, c) else fail .invalid
-    | _ => pure (buf, c)
 
 /-- `Header.Deserialization` -/
 def parseHeader (V : Variant) (K : Keys) : P Header := do
   let u ← parseHeaderUnsigned
   let n ← rVarUint true
-  let bks ← repeatP (loopCount V n) (parseKey V K)
+  let bks ← repeatP n (parseKey V K)
   let m ← rVarUint true
-  let sigs ← repeatP (loopCount V m) (rVarBytes true)
+  let sigs ← repeatP m (rVarBytes true)
   pure ⟨u, bks.map (·.2), sigs, n, bks.map (·.1), m⟩
 
 /-- `serializationUnsigned` -/
@@ -134,13 +127,13 @@ def parseRawHeaderUnsigned : P Nat := do
   pure height
 
 /-- `RawHeader.Deserialization` -/
-def parseRawHeader (V : Variant) : P RawHeader := do
+def parseRawHeader : P RawHeader := do
   let pstart ← pos
   let height ← parseRawHeaderUnsigned
   let n ← rVarUint true
-  let _ ← repeatP (loopCount V n) (rVarBytes true)
+  let _ ← repeatP n (rVarBytes true)
   let m ← rVarUint true
-  let _ ← repeatP (loopCount V m) (rVarBytes true)
+  let _ ← repeatP m (rVarBytes true)
   let payload ← captured pstart
   pure ⟨height, payload⟩
 
@@ -160,13 +153,6 @@ def allInvalid {α : Type} (p : P α) : P α := fun s =>
   | .err _ => .err .invalid
   | r => r
 
-/-- Go `maxAlloc` on 64-bit Linux, and the element size of `[][]byte` -/
-def maxAlloc : Nat := 281474976710656
-def sliceHeaderSize : Nat := 24
-
-/-- `makeslice`: panics when `cap * elemsize` exceeds `maxAlloc` (this includes `cap ≥ 2^63`) -/
-def makeslicePanics (cap : Nat) : Bool := decide (cap * sliceHeaderSize > maxAlloc)
-
 /-- version, height, states root and the signature count -/
 def parseCCMPrefix : P (UInt8 × Nat × Bytes × Nat) := do
   let v ← allInvalid rByte
@@ -175,21 +161,11 @@ def parseCCMPrefix : P (UInt8 × Nat × Bytes × Nat) := do
   let n ← allInvalid (rVarUint false)
   pure (v, h, r, n)
 
-def parseCCMRest (V : Variant) (a : UInt8 × Nat × Bytes × Nat) : P CCMsg :=
-  let n := a.2.2.2
-  match V with
-  | .asShipped =>
-    if makeslicePanics n then (fun _ => .panic) else do
-      let sigs ← allInvalid (repeatP (loopCount V n) (rVarBytes false))
-      pure ⟨a.1, a.2.1, a.2.2.1, sigs, n⟩
-  | _ => do
-      let sigs ← allInvalid (repeatP n (rVarBytes false))
-      pure ⟨a.1, a.2.1, a.2.2.1, sigs, n⟩
-
 /-- `CrossChainMsg.Deserialization` -/
-def parseCCMsg (V : Variant) : P CCMsg := do
+def parseCCMsg : P CCMsg := do
   let a ← parseCCMPrefix
-  parseCCMRest V a
+  let sigs ← allInvalid (repeatP a.2.2.2 (rVarBytes false))
+  pure ⟨a.1, a.2.1, a.2.2.1, sigs, a.2.2.2⟩
 
 def serCCMsg (m : CCMsg) : Bytes :=
   [m.version] ++ writeUintN 4 m.height ++ m.statesRoot ++ serList m.sigData
